@@ -87,7 +87,8 @@ def snapshot_fn(solver_obj):
 
 def run_lp(spec, opts, workdir, rng, inject=True, noise=True, second_side=None,
            time_limit=None, faults=None, clock=None, getters=('short', 'long', 'debug'),
-           text=None, argv=None, decoy_argv=None, cbc_options=None, solve_kwargs=None, cwd=None, stale_text=None):
+           text=None, argv=None, decoy_argv=None, cbc_options=None, solve_kwargs=None, cwd=None, stale_text=None,
+           decoy_text=None):
     """One monitored execution of the real Solver.  Never raises."""
     import sys as _sys
     from matchingproblems.solver import Solver
@@ -149,7 +150,8 @@ def run_lp(spec, opts, workdir, rng, inject=True, noise=True, second_side=None,
             # another live Solver object on the same file with other options, constructed
             # between this object's construction and its solve (and solved before its getters)
             try:
-                decoy = Solver(['-f', path] + list(decoy_argv))
+                dpath = path if decoy_text is None else write_file(workdir, decoy_text, 'decoy.txt', plain=True)
+                decoy = Solver(['-f', dpath] + list(decoy_argv))
             except BaseException:
                 decoy = None
         old_cwd = os.getcwd()
